@@ -62,6 +62,7 @@ func runC45(c *an.Ctx) {
 	if !controlGuard(c) {
 		return
 	}
+	appendAliasRule(c, "smartcontract/service/native/ontid")
 	reg := mustFunc(c, ontidPkg+".RegisterIDContract")
 	checkWitness := mustObj(c, "smartcontract/context.ContextRef.CheckWitness")
 	putM := mustFunc(c, "smartcontract/storage.(*CacheDB).Put")
